@@ -646,6 +646,24 @@ class LHSMaskCollector:
         yield from self.lhs.items()
 
 
+class _DrivenMaskCollector(LHSMaskCollector):
+    # `LHSMaskCollector` treats every bit of the operand of a part select as driven. Where the mask
+    # decides which bits a driver owns (the bits a simulator process writes back, the early
+    # driver-driver conflict check) it must only cover the bits that some offset can actually
+    # select, like the netlist does; the rest of the signal may be driven from elsewhere.
+    def visit_value(self, value, mask):
+        if type(value) is Part:
+            mask &= (1 << value.width) - 1
+            part_mask = 0
+            for offset in range(1 << len(value.offset)):
+                if offset * value.stride >= len(value.value):
+                    break
+                part_mask |= mask << (offset * value.stride)
+            self.visit_value(value.value, part_mask)
+        else:
+            super().visit_value(value, mask)
+
+
 class _ControlInserter(FragmentTransformer):
     def __init__(self, controls):
         self.src_loc = None
